@@ -74,6 +74,9 @@ def half_obligations(ctx, ck, quals, want_sums=(), want_divs=(), sym_funcs=()):
                       % (fmt_tags(htags), [fmt_tags(av.tags) for term, av in terms]))
                 counts['divisions'] += 1
         if q in sym_funcs:
+            if not t.selections and not t.psi_calls:
+                raise AnalysisError('%s: no per-half selection was recognised (anchors moved or the extraction no longer '
+                                    'understands the code)' % q)
             syms = set()
             for node, fam, tags in t.selections:
                 syms |= set(tags)
